@@ -313,7 +313,7 @@ def run_case(ctx, h, case, root):
         res["unwind_notes"] = uw_notes
     cmd = ["cbmc", gb3, "--json-ui", "--trace",
            "--unwinding-assertions", "--no-standard-checks", "--drop-unused-functions"]
-    checks = h.get("checks", DEFAULT_CHECKS)
+    checks = case.get("checks", h.get("checks", DEFAULT_CHECKS))
     cmd += checks
     # allocation faults are drawn from the tape (vf.h, VF_FAULT_ALLOC), never
     # from CBMC's own nondeterministic malloc: they must replay natively
